@@ -117,6 +117,14 @@ func (a *application) start(mode gen.ApplicationMode, options gen.ApplicationOpt
 	// now handle the members that have terminated meanwhile
 	a.startingDone()
 
+	if atomic.LoadInt32(&a.state) == int32(gen.ApplicationStateStopping) {
+		// a stop request arrived while the members were being started.
+		// it has reached only the ones that were running by then
+		for _, pid := range a.members() {
+			a.node.SendExit(pid, gen.TerminateReasonShutdown)
+		}
+	}
+
 	return nil
 }
 
